@@ -36,5 +36,13 @@ ClaimScripts ==
   UNION { { Setup(ka[1], ka[2], p) \o <<CClaimSetOp(c, "me"), VerifyOp(Tok(ka[2], <<>>, <<m>>, IF ka[2] = "none" THEN EmptySig ELSE Sig("valid", ka[2], ka[1])))>> :
               c \in {"iss", "sub", "aud"}, m \in TypedClaim("iss") \cup TypedClaim("sub") \cup TypedClaim("aud") }
           : ka \in { <<DummyKey, "none">>, <<OctKey(32, "a", NONE, NONE), "HS256">> }, p \in Providers }
-MCSpec == ISpecFam(<<C06Scripts, ClaimScripts>>)
+\* time claims at the ends of the 64-bit range against checkers whose leeway is not zero: the comparison must not
+\* leave the range whatever the token says (the leeway is the application's, the claim is the sender's)
+EdgeInts == {WMin, WAdd(WMin, WOf(1)), WAdd(WMin, WOf(299)), WAdd(WMin, WOf(300)), WMax, WSub(WMax, WOf(1)), WSub(WMax, WOf(299)),
+             WSub(WMax, WOf(300)), WSub(WMax, W2p40), WAdd(WMin, W2p40), W0, WOf(-1)}
+TimeScripts ==
+  UNION { { Setup(ka[1], ka[2], p) \o <<CLeewayOp(c, lee), VerifyOp(Tok(ka[2], <<>>, <<IntM(c, v)>>, IF ka[2] = "none" THEN EmptySig ELSE Sig("valid", ka[2], ka[1])))>> :
+              c \in {"exp", "nbf"}, lee \in {WOf(1), WOf(300), W2p40}, v \in EdgeInts }
+          : ka \in { <<DummyKey, "none">>, <<OctKey(32, "a", NONE, NONE), "HS256">> }, p \in Providers }
+MCSpec == ISpecFam(<<C06Scripts, ClaimScripts, TimeScripts>>)
 =============================================================================
